@@ -21,7 +21,7 @@ PROPERTY = "C14"
 LEVEL = "model_checking"
 RULE = (
     "inputs: every canonical unit x {None, SI, mks, cgs, atomic, Planck, imperial, US} via get_base_units(system=), to_base_units / ito_base_units under default_system; all 2-factor compounds over 10 units x "
-    "exponents {-1,1,2}; get_compatible_units(u, G) for every unit x every group and system; sys.<S>.<name> for every system x every spelling with a system-prefixed variant; histories: BFS to depth 3/4 over 17 "
+    "exponents {-1,1,2}; get_compatible_units(u, G) for every unit x every group and system; sys.<S>.<name> for every system x every spelling with a system-prefixed variant; histories: BFS to depth 3/4 over 19 "
     "events (3 default-system settings, 3 base-unit queries, 9 group edits incl. 2 cyclic attempts, membership query, define into a group) with 16 probes per state. non-trivial = distinct case / state fingerprint"
 )
 ASSUMPTIONS = [
@@ -149,6 +149,9 @@ def run_units(acc, sname, block, nblocks):
                 acc.violation(["unit", api, "raises", str(sname)], {"system": sname, "unit": n}, "a quantity", oo)
                 continue
             qq = oo[1]
+            if not hasattr(qq._units, "items"):
+                acc.violation(["unit", api, "quantity-left-with-a-units-attribute-that-is-not-a-container", str(sname)], {"system": sname, "unit": n}, "UnitsContainer", type(qq._units).__name__)
+                continue
             exact = isinstance(f, (int, Fraction)) and isinstance(qq.magnitude, (int, Fraction))
             same_mag = (qq.magnitude == 3 * f) if exact else abs(float(qq.magnitude) - 3 * float(f)) <= 1e-12 * abs(3 * float(f))
             if {k: Fraction(v) for k, v in dict(qq._units).items()} != gu or not same_mag:
@@ -289,7 +292,7 @@ GEV = [
     ("add_units", "G1", "u4"), ("remove_units", "G1", "u4"), ("remove_units", "G1", "g1a"), ("add_units", "G3", "u2"),
     ("add_groups", "G3", "G1"), ("remove_groups", "G3", "G1"), ("remove_groups", "G2", "G1"),
     ("add_groups", "G1", "G2"), ("add_groups", "G1", "G1"),
-    ("members",),
+    ("members",), ("members_of", "G2"), ("members_of", "S1"),
     ("define", "@group G1\n    g1c = 19 * ua\n@end"),
 ]
 
@@ -389,6 +392,9 @@ class GroupDriver(explore.Driver):
             s.using[g].discard(h)
             o = call(lambda: r.get_group(g, False).remove_groups(h))
             return [o[0], "present" if present else "absent"]
+        if k == "members_of":
+            # reads ONE parent only: the groups it uses stay unread
+            return call(lambda: sorted(r.get_group(ev[1], False).members if ev[1].startswith("G") else r.get_system(ev[1], False).members))[:1]
         if k == "members":
             return call(lambda: [sorted(r.get_group(g, False).members) for g in ("G1", "G2", "G3")] + [sorted(r.get_system(x, False).members) for x in ("S1", "S2")])[:1]
         if k == "define":
@@ -433,7 +439,7 @@ class GroupDriver(explore.Driver):
             signal.setitimer(signal.ITIMER_REAL, 0)
 
     def _oracle(self, acc, s, r, case, last):
-        for g in ("G1", "G2", "G3", "G0", "root"):
+        for g in ("root", "G2", "G3", "G0", "G1"):  # users before the groups they use
             acc.ev()
             o = call(lambda: sorted(r.get_group(g, False).members))
             want = sorted(s.members(g))
@@ -537,7 +543,7 @@ MANIFEST = {
     "text": "Every multiplicative canonical unit x 8 system settings: get_base_units(system=), to_base_units and ito_base_units under default_system must use only the system's declared base units plus the root units "
     "it does not replace, preserve dimensionality and exact physical value (Fraction registry), be idempotent and leave the operand alone; all 2-factor compounds over 10 units; every ordered triple of "
     "default-system changes is effective on the next query; get_compatible_units(u, G) for every unit x every group and system equals members(G) of the same dimension; sys.<S>.<name> resolves the system variant. "
-    "Histories: all sequences up to depth 3 (4) over 17 events (default-system settings, base-unit queries, add/remove units and groups including a self-cycle and an indirect cycle, membership queries, defining a "
+    "Histories: all sequences up to depth 3 (4) over 19 events (default-system settings, base-unit queries, add/remove units and groups including a self-cycle and an indirect cycle, membership queries, defining a "
     "unit into a group) on a generated 3-group / 2-system registry; in every state the members of all groups and systems, restricted listings and base-unit answers are compared with a reference closure model "
     "and a fresh registry; cyclic attempts must raise and change nothing; every step is run under a 3 s alarm so that a non-terminating closure is reported, not waited for.",
     "note": "Trusted: R1/R6 (system rule inversion is NOT re-derived: only allowed units, value preservation and idempotence are asserted, which pins the factor). Compounds with more than 2 factors, generated "
